@@ -94,6 +94,8 @@ func checkTestSwitches(p *load.Program, r *kit.Report, rule string, names ...str
 }
 
 func checkC02(p *load.Program, r *kit.Report) {
+	importRules(p, r, "C09", "the required bits are computed for the height that the parent's hash→height label gives: a wrong label compares a real header with another position's target", 11, nil, "HEIGHT-LABEL")
+	importRules(p, r, "C17", "a header removed from a branch must leave its hash map: a stale entry positions the next real header at a height whose samples are gone, and the real chain is refused", 2, nil, "SHRINK-SIBLING")
 	importRules(p, r, "C01", "the required bits are computed from the accumulated work stored with earlier headers: a stored work value must never change after acceptance", 4, nil, "WORK-FLOW")
 	r.NotDecided = "that every real-chain header is accepted (numerical); ConvertToBits/ConvertToWork arithmetic inside the dependency; absence of every panic (containment is decided under C15)."
 	r.Rule("WRITERS", "disableDifficulty / disableSplitProtection are set true only in functions without any caller or reference in the production program", 2)
@@ -308,6 +310,12 @@ func checkTarget(p *load.Program, r *kit.Report) {
 			for {
 				if c, ok := v.(*ssa.Convert); ok {
 					v = c.X
+					continue
+				}
+				// the result temporary of an expanded wrapper around MedianTimeAndWork (its error
+				// return gives 0 and ends Target before the subtraction)
+				if pv := kit.Provenance(v); pv != v {
+					v = pv
 					continue
 				}
 				return v
